@@ -37,13 +37,26 @@ def big_block(payload_len):
 
 
 def rlp_any(x):
+    if isinstance(x, tuple) and x[0] == "raw":
+        return x[1]                      # already encoded
     return refs.rlp_wrap_list(b"".join(rlp_any(i) for i in x)) if isinstance(x, list) \
         else refs.rlp_str(x)
+
+
+def nested_list_rlp(depth):
+    """RLP of an empty list wrapped in `depth` lists (built without recursion)."""
+    enc = b"\xc0"
+    for _ in range(depth):
+        enc = refs.rlp_wrap_list(enc)
+    return enc
 
 
 def mutated_block(d):
     """A header as a field list with some fields replaced (nested lists, empty, oversized...)."""
     nf = d["nf"]
+    if isinstance(nf, str):
+        # not a list at all: an RLP byte string of as many BYTES as a header has fields
+        return refs.rlp_str(bytes(range(1, int(nf[1:]) + 1))).hex()
     fields = [bytes([i + 1]) * (32 if i < 4 else 3) for i in range(nf)]
     if nf >= 17:
         base = nf - (3 if nf >= 19 else 1)
@@ -59,7 +72,12 @@ def mutated_block(d):
                      "long": b"\x05" * 300, "one": b"\x01", "high": b"\x80",
                      "listlist": [[b"a"], [b"b"]], "short-cb": b"\x01" * 10,
                      "cb-39": b"\x01" * 39, "cb-40": b"\x01" * 40,
-                     "cb-41": b"\x01" * 41}[kind]
+                     "cb-41": b"\x01" * 41,
+                     # lists nested deeper than a stock interpreter recurses
+                     "nest300": ("raw", nested_list_rlp(300)),
+                     "nest700": ("raw", nested_list_rlp(700)),
+                     "nest950": ("raw", nested_list_rlp(950)),
+                     "nest3000": ("raw", nested_list_rlp(3000))}[kind]
     return rlp_any(fields).hex()
 
 
@@ -215,11 +233,13 @@ def line(draw):
     if k == 19:
         return {"k": "json", "v": draw(hostile())}
     return {"k": "blockmut", "where": draw(st.sampled_from(["advance", "brother", "ancestor"])),
-            "nf": draw(st.sampled_from([0, 1, 16, 17, 18, 19, 20, 21])),
+            "nf": draw(st.sampled_from([0, 1, 16, 17, 18, 19, 20, 21, 17, 18, 19, 20,
+                                        "s16", "s17", "s18", "s19", "s20", "s21"])),
             "muts": draw(st.lists(st.tuples(
                 st.integers(0, 20), st.sampled_from(
                     ["list", "emptylist", "deep", "empty", "long", "one", "high", "listlist",
-                     "short-cb", "cb-39", "cb-40", "cb-41"])), max_size=3))}
+                     "short-cb", "cb-39", "cb-40", "cb-41", "nest300", "nest700", "nest950",
+                     "nest3000"])), max_size=3))}
 
 
 @st.composite
